@@ -88,22 +88,11 @@ Definition not_null_over_default (defn : option value) (v : value) : bool :=
   | _, _ => true
   end.
 
-(* a definition default that is a member of a (str, Enum) class is not used for a field annotated with that class (or Optional of it):
-   argparse takes such a member for a str default and sends it through the converter *)
-Definition defn_enum_safe (E : enum_env) (t : ty) (defn : option value) : bool :=
-  match defn with Some (VEnum _) => negb (is_str_member E t) | _ => true end.
-Fixpoint enum_defaults_safe (E : enum_env) (s : schema) : bool :=
-  match s with
-  | SLeaf t defn => defn_enum_safe E t defn
-  | SNode fs => forallb (fun kv => enum_defaults_safe E (snd kv)) fs
-  | SOpt s' => enum_defaults_safe E s'
-  end.
-
-Fixpoint side_conditions (E : enum_env) (s : schema) (x : inst) {struct s} : bool :=
+Fixpoint side_conditions (s : schema) (x : inst) {struct s} : bool :=
   match s, x with
   | SLeaf t defn, ILeaf v => items_plain t && not_null_over_default defn v
-  | SNode fs, INode xs => all2b (side_conditions E) fs xs
-  | SOpt s', ILeaf VNone => enum_defaults_safe E s'   (* the fields of a None member are still processed, from their definition defaults *)
-  | SOpt s', INode _ => side_conditions E s' x
+  | SNode fs, INode xs => all2b side_conditions fs xs
+  | SOpt _, ILeaf VNone => true
+  | SOpt s', INode _ => side_conditions s' x
   | _, _ => false
   end.
